@@ -182,6 +182,26 @@ func c20Replay(i int, raw json.RawMessage) Result {
 				bin = c20Mint(key, r.User, []string{std[0], std[2]})
 			case "mint_extra_unknown":
 				bin = c20Mint(key, r.User, append(append([]string{}, std...), "unknown = 1"))
+			case "mint_gen_near":
+				// not the generation caveat: its text followed by more characters, another letter case, other spacing
+				v := []string{tokens.Gen + "0", tokens.Gen + "x", tokens.Gen + " ", " " + tokens.Gen, "Gen = 1", "gen=1", "gen = 2", "gen = 01", tokens.Gen + ".0"}
+				bin = c20Mint(key, r.User, []string{v[i%len(v)], std[1], std[2]})
+			case "mint_user_near":
+				// a caveat that is not "user_id = <the user>" although it resembles it; the validating side asks for
+				// r.VUser, so the variants are built around that name (and around the issued one)
+				vu := r.VUser
+				v := []string{"User_id = " + vu, "user_id =" + vu, "user_id  = " + vu, "userid = " + vu, " " + tokens.UserPrefix + vu,
+					"user_id = " + vu + " ", "user_id = " + vu + "x", "user_id = " + strings.ToUpper(vu)}
+				if len(vu) > 1 {
+					v = append(v, "user_id = "+vu[:len(vu)-1])
+				}
+				bin = c20Mint(key, r.User, []string{std[0], v[i%len(v)], std[2]})
+			case "mint_time_near":
+				es := strconv.FormatInt(exp, 10)
+				v := []string{"Time < " + es, "time <" + es, "time <= " + es, "time > " + es, " " + tokens.TimePrefix + es,
+					tokens.TimePrefix + es + "x", tokens.TimePrefix + es + ".0", tokens.TimePrefix + es + " ", tokens.TimePrefix + " " + es,
+					tokens.TimePrefix + "0x7fffffffffff", tokens.TimePrefix + "9" + strings.Repeat("9", 19), tokens.TimePrefix, tokens.TimePrefix + "never"}
+				bin = c20Mint(key, r.User, []string{std[0], std[1], v[i%len(v)]})
 			default:
 				panic("unknown alteration " + k)
 			}
